@@ -97,6 +97,7 @@ def stepOp (s : St) (line : String) : St × String :=
       let o := opsOf alg
       (s, "ok " ++ toHex (if kv? rest "mode" = some "sorted" then chp o a b else o.hp a b))
     | _, _ => (s, "bad-op")
+  | "verifyj" :: _ => (s, "err")        -- an element of the proof vector is not a BytesN<32>: the read fails
   | "verify" :: rest =>
     let alg := (kv? rest "alg").getD "sha"
     match hexArg rest "root", hexArg rest "leaf", proofArg rest with
@@ -196,6 +197,7 @@ def monStateless (opl obs : String) : Option String :=
     match kv? rest "want" with
     | some want => if obs = "ok " ++ want then none else some s!"site=hashable.pair library pair hash {obs} but independent computation says {want}"
     | none => some s!"site=c17.parse {opl}"
+  | "verifyj" :: rest => verdictJunk (kv? rest "index" ≠ some "-") { ans := parseAns obs, raw := obs }
   | "verify" :: rest | "verifyidx" :: rest =>
     match parseVOp ws with
     | some op => verdictVerify (hashOf ((kv? rest "alg").getD "sha")) op { ans := parseAns obs, raw := obs }
